@@ -138,6 +138,81 @@ func H_SharedInterpreterSchedule() {
 	zv.Assert(results[1].err == nil && isSame(results[1].res, -b), "request 2 gets the result of its own script under every interleaving")
 }
 
+// programs that change something, call the input function 钩子 in the middle,
+// and then observe what they changed
+var overlapped = []string{
+	"输入钩子、A\n如何新建异常？\n    输入信息\n    令备注 = 信息\n（钩子）\n抛出异常：“出错了”！\n拦截异常：\n    输出 其自身",
+	"输入钩子、A\n如何新建异常？\n    输入信息\n    其内容 = “自定”\n（钩子）\n抛出异常：“出错了”！",
+	"输入钩子、A\n以数值（自增：A）\n（钩子）\n输出 数值 + 0",
+	"输入钩子、A\n令甲 = A\n如何乙？\n    输出 甲 + 1\n（钩子）\n输出（乙）",
+	"导入《@JSON》\n输入钩子、A\n（钩子）\n输出（生成JSON：【甲 = 1】）",
+	"输入钩子、A\n如何F？\n    输入N\n    （钩子）\n    令Y = N / 0\n    输出 1\n    拦截异常：\n        输出 N + 2\n输出（F：A）",
+	"输入钩子、A\n（钩子）\n令X = 1 / 0\n输出 1\n拦截异常：\n    输出 其内容",
+	"输入钩子、A\n定义丙：\n    其值设为 A\n（钩子）\n令O = （新建丙）\n输出 O之值",
+}
+
+func sameOutcome(x, y outcome) bool {
+	if (x.p == nil) != (y.p == nil) || (x.err == nil) != (y.err == nil) {
+		return false
+	}
+	if x.err != nil {
+		return x.err.Error() == y.err.Error()
+	}
+	if (x.res == nil) != (y.res == nil) {
+		return false
+	}
+	if x.res == nil {
+		return true
+	}
+	xn, okx := x.res.(*value.Number)
+	yn, oky := y.res.(*value.Number)
+	if okx || oky {
+		return okx && oky && zv.SameFloat(xn.GetValue(), yn.GetValue())
+	}
+	xs, okx2 := x.res.(interface{ String() string })
+	ys, oky2 := y.res.(interface{ String() string })
+	return okx2 && oky2 && xs.String() == ys.String()
+}
+
+func hookFn(f func()) r.Element {
+	return value.NewFunction(func(receiver r.Element, params []r.Element) (r.Element, error) {
+		f()
+		return value.NewNull(), nil
+	})
+}
+
+// H_Overlapping: an execution Q (own interpreter) starts and finishes while
+// another execution P is in the middle of its run - as two requests served at
+// the same time do.  P and Q must both behave exactly as when run alone.
+func H_Overlapping() {
+	a := zv.Float64("A")
+	zv.Assume(a == a)
+	psrc := overlapped[zv.Choose(len(overlapped))]
+	var qsrc string
+	var qin r.ElementMap
+	nq := len(polluters) + len(probes)
+	k := zv.Choose(nq)
+	if k < len(polluters) {
+		qsrc, qin = polluters[k], r.ElementMap{"A": value.NewNumber(a)}
+	} else {
+		qsrc, qin = probes[k-len(polluters)].src, r.ElementMap{}
+	}
+	pAlone := exe(newIt(), psrc, r.ElementMap{"钩子": hookFn(func() {}), "A": value.NewNumber(a)})
+	qAlone := exe(newIt(), qsrc, qin)
+	var qWith outcome
+	ran := false
+	pWith := exe(newIt(), psrc, r.ElementMap{"钩子": hookFn(func() { ran = true; qWith = exe(newIt(), qsrc, qin) }), "A": value.NewNumber(a)})
+	zv.Assert(ran, "the overlapped program reaches its hook")
+	zv.Assert(pAlone.p == nil && pWith.p == nil && qWith.p == nil, "overlapping executions: no panic")
+	if !sameOutcome(pAlone, pWith) {
+		zv.Observe("P", psrc)
+		zv.Observe("Q", qsrc)
+	}
+	zv.Assert(sameOutcome(pAlone, pWith), "an execution behaves as when run alone although another one started and finished in the middle of it")
+	zv.Assert(sameOutcome(qAlone, qWith), "an execution started in the middle of another one behaves as when run alone")
+	zv.Reach("done")
+}
+
 func isSame(e r.Element, want float64) bool {
 	n, ok := e.(*value.Number)
 	return ok && zv.SameFloat(n.GetValue(), want)
